@@ -48,7 +48,7 @@ def bearer_cases(rng, tier):
     return out
 
 
-JWT_MUTS = ["none", "bad-sig", "wrong-key", "unknown-kid", "no-kid", "alg-none", "iss-wrong", "iss-missing", "aud-wrong", "aud-list-ok",
+JWT_MUTS = ["none", "bad-sig", "wrong-key", "unknown-kid", "no-kid", "alg-none", "iss-wrong", "iss-missing", "aud-wrong", "aud-superstring", "aud-superstring2", "aud-list-ok",
             "aud-missing", "exp-past", "exp-missing", "exp-bool", "typ-bad", "typ-suffix", "typ-suffix2", "typ-prefix", "typ-space", "typ-app", "typ-upper", "typ-int", "typ-absent", "scope-int",
             "scope-list", "sub-missing", "client_id-missing", "iat-missing", "iat-future", "jti-missing", "auth_time-str", "amr-str",
             "groups-int", "groups-false", "scope-zero", "roles-emptyobj", "entitlements-false", "auth_time-true", "not-jwt", "two-parts", "payload-not-json", "payload-list", "garbage-b64"]
@@ -148,8 +148,25 @@ def expected_jwt7523(c):
     return "served"
 
 
+def remote_cases():
+    """a resource server on rfc7662.IntrospectTokenValidator (one validator instance serving several requests): use, then revoke / expire, then use"""
+    return [{"kind": "remote", "then": then, "required": req} for then in ("revoke", "expire", "nothing") for req in (None, ["a"], ["a b"], ["z"])]
+
+
+def impl_remote(c):
+    import provider_hist as H
+    w = H.World()
+    A1 = ["c1", "client_secret_basic"]
+    w.step({"op": "issue_password", "auth": A1, "user": 1, "scope": "a b"})
+    use = {"op": "access", "token": "at1", "required": c["required"], "via": "introspection"}
+    first = w.step(dict(use))
+    w.step({"revoke": {"op": "revoke", "auth": A1, "token": "at1", "hint": None}, "expire": {"op": "advance", "dt": 900000}, "nothing": {"op": "advance", "dt": 1}}[c["then"]])
+    second = w.step(dict(use))
+    return {"first": {"status": first.get("status"), "error": first.get("error")}, "second": {"status": second.get("status"), "error": second.get("error")}}
+
+
 def cases(rng, tier):
-    return _cases(rng, tier) + jwt7523_cases()
+    return _cases(rng, tier) + jwt7523_cases() + remote_cases()
 
 
 def _cases(rng, tier):
@@ -238,6 +255,8 @@ def impl(c):
     ms.install_clock()
     if c["kind"] == "jwt7523":
         return impl_jwt7523(c)
+    if c["kind"] == "remote":
+        return impl_remote(c)
     if c["kind"] == "bearer":
         store = ms.Store()
         rp = ResourceProtector()
@@ -293,6 +312,8 @@ def craft(muts, want_parts=False):
         elif m == "iss-wrong": payload["iss"] = ISS + "/"
         elif m == "iss-missing": payload.pop("iss", None)
         elif m == "aud-wrong": payload["aud"] = "https://other"
+        elif m == "aud-superstring": payload["aud"] = RS + "/v2"
+        elif m == "aud-superstring2": payload["aud"] = "https://evil.example/?next=" + RS
         elif m == "aud-list-ok": payload["aud"] = ["https://other", RS]
         elif m == "aud-missing": payload.pop("aud", None)
         elif m == "exp-past": payload["exp"] = now - 1
@@ -351,7 +372,7 @@ def craft(muts, want_parts=False):
     return tok
 
 
-BAD401 = {"bad-sig", "wrong-key", "unknown-kid", "no-kid", "alg-none", "iss-wrong", "iss-missing", "aud-wrong", "aud-missing", "exp-past",
+BAD401 = {"bad-sig", "wrong-key", "unknown-kid", "no-kid", "alg-none", "iss-wrong", "iss-missing", "aud-wrong", "aud-superstring", "aud-superstring2", "aud-missing", "exp-past",
           "exp-missing", "exp-bool", "typ-bad", "typ-int", "scope-int", "sub-missing", "client_id-missing", "iat-missing", "iat-future",
           "jti-missing", "auth_time-str", "amr-str", "groups-int", "groups-false", "scope-zero", "roles-emptyobj", "entitlements-false", "not-jwt", "two-parts", "payload-not-json", "payload-list", "garbage-b64"}
 
@@ -399,7 +420,7 @@ def jwt_model_line(c):
 
 
 def model_line(c):
-    if c["kind"] == "jwt7523":
+    if c["kind"] in ("jwt7523", "remote"):
         return None
     if c["kind"] != "bearer":
         ms.install_clock()
@@ -485,6 +506,18 @@ def expected_jwt(c):
 
 
 def oracle(c, out):
+    if c["kind"] == "remote":
+        req = c["required"]
+        ok_scope = not req or any(set(alt.split()) <= {"a", "b"} for alt in req)
+        want1 = 200 if ok_scope else 403
+        want2 = want1 if c["then"] == "nothing" else 401
+        v = []
+        if out["first"]["status"] != want1:
+            v.append((f"resource server on IntrospectTokenValidator: first request answered {out['first']}, the statement requires status {want1}", {"kind": "wrong-decision", "token": "remote", "want": str(want1)}))
+        if out["second"]["status"] != want2:
+            v.append((f"resource server on IntrospectTokenValidator: after '{c['then']}' the same token is answered {out['second']}, the statement requires status {want2}",
+                      {"kind": "wrong-decision", "token": "remote", "got": "served" if out["second"]["status"] == 200 else str(out["second"]["status"]), "want": str(want2)}))
+        return v
     kind = c["kind"]
     if "raised" in out:
         return [(f"{out['raised']} escaped the resource protector: {out.get('msg')}", {"kind": "crash", "token": kind, "exc": out["raised"],
@@ -503,6 +536,8 @@ def oracle(c, out):
 
 
 def classify(c, out):
+    if c["kind"] == "remote":
+        return f"remote/{c['then']}/{out['first']['status']}-{out['second']['status']}"
     return c["kind"] + "/" + out.get("decision", "raised")
 
 
